@@ -995,4 +995,3 @@ func dropAttr(as []transaction.Attribute, t transaction.AttrType) []transaction.
 	return res
 }
 
-func runProposal(f *hx.Flags, o *hx.Out) {}
